@@ -70,3 +70,51 @@ package vgirpc
 //@   P >= 0 && authLayout(a, P, d1, p1) && authLayout(b, P, d2, p2) && sameBytes(a, b) && len(d1) == len(d2) && 0 <= i && i < len(d1) ==> d1[i] == d2[i]
 //@ lemma aadPrincipalBytes [C13]: forall a string, b string, P int, d1 string, p1 string, d2 string, p2 string, i int ::
 //@   P >= 0 && authLayout(a, P, d1, p1) && authLayout(b, P, d2, p2) && sameBytes(a, b) && len(d1) == len(d2) && 0 <= i && i < len(p1) && i < len(p2) ==> p1[i] == p2[i]
+
+// Which AAD is used where. Every token is sealed and opened under the AAD of its own kind,
+// rendered for the identity of the request at hand: the cursor under the state AAD of the
+// minting / presenting identity with the cursor version, the call token under the call AAD with
+// the call version, the session token under the state AAD of the sink's / the request's identity —
+// and the registry slice a session lives in is keyed by the same identity.
+//
+//@ func (*HttpServer).packCursorToken
+//@   property C13
+//@   pathvar aadv []byte
+//@   at call stateTokenAad assert [identity] arg0 == auth
+//@   at call stateTokenAad setflag aadv result
+//@   at call (*HttpServer).sealToken assert [cursorseal] arg1 == 6 && arg3 == aadv
+//
+//@ func (*HttpServer).packCallToken
+//@   property C13
+//@   pathvar aadv []byte
+//@   at call callTokenAad assert [identity] arg0 == auth
+//@   at call callTokenAad setflag aadv result
+//@   at call (*HttpServer).sealToken assert [callseal] arg1 == 1 && arg3 == aadv
+//
+//@ func (*HttpServer).openCursorToken
+//@   property C13
+//@   pathvar aadv []byte
+//@   at call stateTokenAad setflag aadv result
+//@   at call (*HttpServer).openToken assert [cursoropen] arg1 == 6 && arg3 == aadv
+//
+//@ func (*HttpServer).resolveCall
+//@   property C13
+//@   pathvar aadv []byte
+//@   at call callTokenAad setflag aadv result
+//@   at call (*HttpServer).openToken assert [callopen] arg1 == 1 && arg3 == aadv
+//
+//@ func (*HttpServer).installStickyOnRequestNoCtx
+//@   property C13
+//@   pathvar aadv []byte
+//@   at call stateTokenAad assert [identity] arg0 == auth
+//@   at call stateTokenAad setflag aadv result
+//@   at call openSessionToken assert [sessionopen] arg2 == aadv && arg1 == h.tokenKey
+//@   at call principalKeyFromAuth assert [slice] arg0 == auth
+//
+//@ func (*CallContext).OpenSession
+//@   property C13
+//@   pathvar aadv []byte
+//@   at call stateTokenAad assert [identity] arg0 == sink.auth
+//@   at call stateTokenAad setflag aadv result
+//@   at call sealSessionToken assert [sessionseal] arg4 == aadv && arg0 == sink.tokenKey
+//@   at call principalKeyFromAuth assert [slice] arg0 == sink.auth
